@@ -20,7 +20,8 @@ def main():
         tier = sys.argv[sys.argv.index("--tier") + 1]
     seed = int(os.environ.get("VERIF_SEED", "0") or 0)
     try:
-        d = pipeline.ensure_facts()
+        # thorough: the facts must come from a from-scratch run of the pipeline for this tree state (no incremental reuse)
+        d = pipeline.ensure_facts(clean=(tier == "thorough"))
     except pipeline.InfraError as e:
         sys.stderr.write("INFRA-ERROR (no verdict): %s\n" % e)
         sys.exit(2)
